@@ -133,7 +133,14 @@ static void run(const Case &c, Info &info) {
         }
         // controller state equals linear playback to t
         std::vector<ChanState> sa = chan_states(A.I), sb = chan_states(B.I);
-        VCHECK(sa.size() == sb.size(), "channel count differs");
+        // a device-name meta that playback passed BEFORE the seek has left 16 more channels behind which a linear playback to an earlier target has not created yet:
+        // such channels must be in the state a newly created channel has
+        if(sa.size() != sb.size()) {
+            OPNMIDIplay::MIDIchannel fresh; ChanState dflt = {{fresh.patch, fresh.bank_msb, fresh.bank_lsb, fresh.volume, fresh.expression, fresh.panning, fresh.bend, fresh.bendsense_msb, fresh.bendsense_lsb, fresh.sustain, fresh.softPedal, fresh.portamento, fresh.portamentoEnable, fresh.brightness, fresh.vibrato, fresh.aftertouch, fresh.lastlrpn, fresh.lastmrpn, fresh.nrpn, fresh.is_xg_percussion, fresh.noteAfterTouchInUse}};
+            VCHECK(sa.size() > sb.size() && sa.size() % 16 == 0, "after seeking to %.6f there are %zu MIDI channels, linear playback to the same time has %zu", t, sa.size(), sb.size());
+            for(size_t i = sb.size(); i < sa.size(); i++) for(int k = 0; k < 21; k++) VCHECK(sa[i].f[k] == dflt.f[k], "after seeking to %.6f: channel %zu (of a port that linear playback has not reached yet) has %s = %d, a new channel has %d", t, i, fld[k], sa[i].f[k], dflt.f[k]);
+            sa.resize(sb.size());
+        }
         for(size_t i = 0; i < sa.size(); i++) for(int k = 0; k < 21; k++) VCHECK(sa[i].f[k] == sb[i].f[k], "after seeking to %.6f: channel %zu %s is %d, linear playback to the same time gives %d", t, i, fld[k], sa[i].f[k], sb[i].f[k]);
         VCHECK(A.I.play()->m_synthMode == B.I.play()->m_synthMode && A.I.play()->m_synth->m_masterVolume == B.I.play()->m_synth->m_masterVolume, "after seeking to %.6f: synth mode / master volume differ from linear playback", t);
     }
@@ -180,7 +187,7 @@ int main(int argc, char **argv) {
     if(!c.kv.count("budget")) c.cpu_budget_s = 120; else c.cpu_budget_s = c.opt("budget", 120);
     if(c.mode == "replay") return replay_main([](const std::string &s) { Info info; run(deser(s), info); });
     pbt("c08_seek_vs_linear", c.n, 35, []() {
-        Case cs; cs.song = *genSong();
+        Case cs; cs.song = *genSong(false, true);
         // keep songs short in time so linear re-play of the twin stays cheap: no giant deltas
         for(STrack &t : cs.song.tracks) for(SEv &e : t.ev) if(e.delta > 30000) e.delta = 1 + e.delta % 3000;
         smf_ticks(cs.song);
